@@ -7,7 +7,7 @@ CONSTANTS
     RateCfg = 2
     DefTTLCfg = 0
     W = 2
-    MaxT = 4
+    MaxT = 3
     Ticks = {1}
     Mode = "mc"
     Depth = 0
